@@ -1266,29 +1266,61 @@ package geom
 //@   modifies nothing
 
 //@ -- ------------------------------------------------------------ C14: Clip
+//@ -- Line sets are abstract ids like regions: linesOf(o) is the set of pieces a result denotes,
+//@ -- lineRegion / mlRegion the subject handed to the clipper. The connecting axioms are content-
+//@ -- based (vertex for vertex), so a result that is not built from the clipper's output, or a
+//@ -- subject that is not the receiver's vertices, does not get the ids the postcondition needs.
+//@ spec linesOf(o []LineString) int
+//@ spec lineRegion(l []Point) int
+//@ spec mlRegion(ml []LineString) int
+//@ pred unclosedOf(line []Point, ring []Point) = len(ring) >= 2 && len(line) == len(ring) - 1 && (forall j int :: 0 <= j && j < len(line) ==> biteq(line[j].X, ring[j].X) && biteq(line[j].Y, ring[j].Y))
+//@ pred samePts(a []Point, b []Point) = len(a) == len(b) && (forall j int :: 0 <= j && j < len(a) ==> biteq(a[j].X, b[j].X) && biteq(a[j].Y, b[j].Y))
+//@ axiom lines_unclosed(o []LineString, pt []Path)
+//@   trusted A-REGION: a CLIPLINE result denotes the same pieces with or without the closing vertex that polyClipToPolygon repeats at the end of each contour
+//@   requires len(o) == len(pt) && (forall k int :: 0 <= k && k < len(pt) ==> unclosedOf(o[k], pt[k]))
+//@   ensures linesOf(o) == regionG(pt)
+//@ axiom region_one_line(pt []Path, l []Point)
+//@   trusted A-REGION: a one-contour subject with the vertices of l denotes the line l
+//@   requires len(pt) == 1 && samePts(pt[0], l)
+//@   ensures regionG(pt) == lineRegion(l)
+//@ axiom region_lines(pt []Path, ml []LineString)
+//@   trusted A-REGION: one open contour per member, vertex for vertex, denotes the multi-line string
+//@   requires len(pt) == len(ml) && (forall k int :: 0 <= k && k < len(ml) ==> samePts(pt[k], ml[k]))
+//@   ensures regionG(pt) == mlRegion(ml)
+
 //@ func (l LineString) Clip
 //@   prop C14
 //@   mode ufloat
 //@   requires [nonnil] p != nil && (typeof(p) == *Bounds ==> p.(*Bounds) != nil)
 //@   ensures [type] typeof(result) == MultiLineString && fresh(result.(MultiLineString))
+//@   ensures [clipped] linesOf(result.(MultiLineString)) == pcOp(polyclip.CLIPLINE, lineRegion(l), regionOf(p))
 //@   modifies nothing
 //@   loop 1 `for i, pp := range pTemp`
 //@     invariant [closed_rings] forall k int :: 0 <= k && k < len(pTemp) ==> len(pTemp[k]) >= 2
-//@     invariant [pieces] 0 <= #1 && #1 <= len(pTemp) && fresh(o) && !sameObj(o, pTemp) && len(o) == len(pTemp) && (forall k int :: 0 <= k && k < #1 ==> len(o[k]) == len(pTemp[k]) - 1 && sameObj(o[k], pTemp[k]))
-//@   assert [clipline] `o := make(MultiLineString, len(pTemp))` regionG(pTemp) == pcOp(polyclip.CLIPLINE, regionG(`Polygon{Path(l)}`), regionOf(p))
-//@   assert [one_contour_per_line] `pTemp := Polygon{Path(l)}.op(p, polyclip.CLIPLINE)` true
+//@     invariant [pieces] 0 <= #1 && #1 <= len(pTemp) && fresh(o) && !sameObj(o, pTemp) && len(o) == len(pTemp) && (forall k int :: 0 <= k && k < #1 ==> unclosedOf(o[k], pTemp[k]))
+//@     invariant [clipline] regionG(pTemp) == pcOp(polyclip.CLIPLINE, lineRegion(l), regionOf(p))
+//@   assert [clipline] `o := make(MultiLineString, len(pTemp))` regionG(pTemp) == pcOp(polyclip.CLIPLINE, lineRegion(l), regionOf(p))
+//@     using region_one_line(`Polygon{Path(l)}`, l)
+//@   assert [pieces_are_the_clipped_contours] `return o` linesOf(o) == pcOp(polyclip.CLIPLINE, lineRegion(l), regionOf(p))
+//@     using lines_unclosed(o, pTemp)
 
 //@ func (ml MultiLineString) Clip
 //@   prop C14
 //@   mode ufloat
 //@   requires [nonnil] p != nil && (typeof(p) == *Bounds ==> p.(*Bounds) != nil)
 //@   ensures [type] typeof(result) == MultiLineString && fresh(result.(MultiLineString))
+//@   ensures [clipped] linesOf(result.(MultiLineString)) == pcOp(polyclip.CLIPLINE, mlRegion(ml), regionOf(p))
 //@   modifies nothing
 //@   loop 1 `for i, l := range ml`
 //@     invariant [subject] 0 <= #1 && #1 <= len(ml) && fresh(pTemp) && len(pTemp) == len(ml) && (forall k int :: 0 <= k && k < #1 ==> pTemp[k] == ml[k])
+//@   assert [subject_is_receiver] `pTemp = pTemp.op(p, polyclip.CLIPLINE)` regionG(pTemp) == mlRegion(ml)
+//@     using region_lines(pTemp, ml)
 //@   loop 2 `for i, pp := range pTemp`
 //@     invariant [closed_rings] forall k int :: 0 <= k && k < len(pTemp) ==> len(pTemp[k]) >= 2
-//@     invariant [pieces] 0 <= #2 && #2 <= len(pTemp) && fresh(o) && !sameObj(o, pTemp) && len(o) == len(pTemp) && (forall k int :: 0 <= k && k < #2 ==> len(o[k]) == len(pTemp[k]) - 1 && sameObj(o[k], pTemp[k]))
+//@     invariant [pieces] 0 <= #2 && #2 <= len(pTemp) && fresh(o) && !sameObj(o, pTemp) && len(o) == len(pTemp) && (forall k int :: 0 <= k && k < #2 ==> unclosedOf(o[k], pTemp[k]))
+//@     invariant [clipline] regionG(pTemp) == pcOp(polyclip.CLIPLINE, mlRegion(ml), regionOf(p))
+//@   assert [pieces_are_the_clipped_contours] `return o` linesOf(o) == pcOp(polyclip.CLIPLINE, mlRegion(ml), regionOf(p))
+//@     using lines_unclosed(o, pTemp)
 
 //@ -- ------------------------------------------------- C04: multi-member envelopes
 //@ func (ml MultiLineString) Bounds
